@@ -10,6 +10,7 @@ import (
 	"math/rand"
 	"os"
 	"path/filepath"
+	"runtime"
 	"sort"
 	"strconv"
 	"strings"
@@ -126,6 +127,10 @@ var (
 func watchLimit() time.Duration {
 	if raceBuild {
 		return 120 * time.Second
+	}
+	if runtime.GOMAXPROCS(0) <= 2 {
+		// one or two Ps: scenarios with a dozen busy goroutines and sleeping listeners advance one preemption quantum at a time
+		return 90 * time.Second
 	}
 	return 15 * time.Second
 }
